@@ -643,7 +643,15 @@ def r01_10(ctx, rep):
             variant, payload = rec[2], rec[3]
             if op in WANT:
                 wv, wp = WANT[op]
-                if variant == wv and tuple(payload) == wp:
+                same = variant == wv and tuple(payload) == wp
+                if not same and op == "append" and variant == "Append" and len(payload) == 2:
+                    # the element of the caller's iterator, however it is taken (for / next() / the argument of a closure run by an
+                    # adaptor over the entries): both parts are the two fields of ONE element value that is not stored state
+                    a, b = payload
+                    if is_field(a, "0") and is_field(b, "1") and a[1] == b[1] and not has_field(a[1], "state_machine") and \
+                            (a[1][0] == "cl_arg" or contains(a[1], lambda x: x == ("arg", 2))):
+                        same = True
+                if same:
                     rep.ok("R01.10", "%s -> %s(%s)" % (op, variant, ", ".join(expr_s(x)[:40] for x in payload)), "", where=g.where(n))
                 else:
                     rep.violation("R01.10", "%s|journals:%s(%s)" % (op, variant, ", ".join(expr_s(x)[:40] for x in payload)[:80]), "Op(%s)" % op,
